@@ -442,4 +442,51 @@ def ledOf (tr : List Ev) : Led := tr.foldl step {}
 
 def K.led (k : K) : Led := ledOf k.tr
 
+/-! ## second monitor: steps that fail for good
+
+A failing `socket` / `setsockopt` / `fcntl` / `bind` inside create_server_socket_bound's loop over the
+addresses getaddrinfo returned is not an error by itself: the next address is tried.  It counts only when no
+address of that list could be bound.  Everything else that fails counts. -/
+
+structure HF where
+  win : Option Bool := none       -- inside a getaddrinfo … freeaddrinfo window: has an address been bound?
+  hard : Nat := 0
+  deriving DecidableEq, Repr
+
+/-- failures of the per-address steps -/
+def Ev.perAddress : Ev → Bool
+  | .socket _ none => true
+  | .sockopt _ _ false => true
+  | .fcntl _ _ false => true
+  | .bind _ _ false => true
+  | _ => false
+
+/-- failures of every other step -/
+def Ev.failedHard : Ev → Bool
+  | .signal _ _ false => true
+  | .init false => true
+  | .gai _ _ none => true
+  | .listen _ false => true
+  | .add _ _ false => true
+  | .accept _ .fatal => true
+  | .getpwnam false => true
+  | .setgid false => true
+  | .setuid false => true
+  | .daemon false => true
+  | .run false => true
+  | _ => false
+
+def hfStep (s : HF) (e : Ev) : HF :=
+  match e with
+  | .gai _ _ (some _) => { s with win := some false }
+  | .freeai => { win := none, hard := if s.win = some false then s.hard + 1 else s.hard }
+  | .bind _ _ true => { s with win := s.win.map (fun _ => true) }
+  | e =>
+    if e.failedHard then { s with hard := s.hard + 1 }
+    else if e.perAddress ∧ s.win = none then { s with hard := s.hard + 1 }
+    else s
+
+/-- number of steps of a trace that failed for good -/
+def hardFailures (tr : List Ev) : Nat := (tr.foldl hfStep {}).hard
+
 end Cjet.Startup
